@@ -126,3 +126,24 @@ TEXT.update({
         "technique": _T + "; differential against the std::io impls on twin streams",
     },
 })
+
+TEXT.update({
+    "C07": {
+        "level": "No harness family of its own: the designated total harnesses (slice derivations and accessors, slice/region buffer and object accesses, bitmap operations, guest-memory queries and accesses over symbolic 64-bit layouts, cursor adapters, zero-length accesses) run with every guest-chosen address/offset/length/count unconstrained, and Kani's own checks - panic, unwrap on None/Err, arithmetic overflow (checked build), division by zero, slice index, and unwinding assertions (termination within the derived bound) - must all be unreachable.",
+        "design_ref": "DESIGN.md §4 C07",
+        "note": "bounded container sizes; documented logic panics and constructor-time configuration excluded; one encoding covers checked and unchecked builds (no overflow reachable => same values)",
+        "technique": _T + "; Kani's built-in panic/overflow/unwinding checks over unconstrained guest-controlled arguments",
+    },
+    "C08": {
+        "level": "Rely/guarantee encoding of concurrency: the std atomic helpers are stubbed so that before every atomic step of the REAL operation (set/reset range, set/reset bit, get_and_reset, clone) the environment - all other threads - performs a solver-chosen sequence (<= 3 steps in total) of 'mark a page' / 'fetch-and-clear the word' on that word; ghost sets record who marked and harvested what. After a final real harvest: every page marked by anyone is in some harvest result (unless the operation under test is a reset of that page), and no harvest reports an unmarked page. Every interleaving within the budget is one assignment of solver variables.",
+        "design_ref": "DESIGN.md §3 E4, §4 C08",
+        "note": "sequentially consistent memory; bitmaps of 8-128 pages; environment alphabet {mark, harvest}; each step of the code under test is checked to be in the RMW alphabet",
+        "technique": _T + "; interference stubs on core::sync::atomic helpers (schedule = solver variables)",
+    },
+    "C14": {
+        "level": "Scripted ReadVolatile/WriteVolatile streams (transfer up to a symbolic amount / zero / EINTR / hard error) drive the real retry_eintr!, default read_exact_volatile/write_all_volatile, the slice-level stream methods and - over the mock - the guest-level try_access continuation; a reference interpreter gives the expected outcome; delivered bytes are stamped so loss, duplication and reordering show in memory (symbolic index), accepted bytes are logged in order. The script KINDS are a grid of solver queries (every script up to length 2, thorough length 3), amounts, counts and addresses are symbolic.",
+        "design_ref": "DESIGN.md §3 E8, §4 C14",
+        "note": "scripts <= 3 calls, counts <= 3; EINTR-first scripts cost 5-7 minutes each (the library's own drop of io::Error), so quick runs them by representatives; unwinding failures count as violations (non-terminating retry)",
+        "technique": _T + "; scripted fault streams, reference interpreter, per-loop unwind bounds",
+    },
+})
